@@ -438,7 +438,7 @@ def r04_7(ctx: Ctx):
                   f'(and every other trial or solver using it) changes with it, so a reported value no longer is the '
                   f'objective at the reported point',
                   key=f'{rid}::{o.site.split(":")[0]}::foreign-point::{hazard[0].site if hazard else ""}')
-    ctx.floor(rid, 'search items created by the library', n, 4)
+    ctx.floor(rid, 'search items created by the library', n, 2)
 
 
 def check(ctx: Ctx):
